@@ -215,9 +215,9 @@ Lemma read_packet_ok cfg s ev rest : read_packet cfg s = Ok ev rest -> (length r
 Proof.
   unfold read_packet, read_packet_gen. destruct s as [|b0 [|b1 [|b2 [|b3 s']]]]; try discriminate.
   destruct (negb (b0 =? DOLLAR)); [discriminate|]. destruct (zlen s' <? b2 * 256 + b3); [discriminate|].
-  destruct (find_chan cfg b1 0) as [i|]; [|discriminate].
   assert (L : (length (skipn (Z.to_nat (b2 * 256 + b3)) s') < length (b0 :: b1 :: b2 :: b3 :: s'))%nat)
     by (rewrite skipn_length; cbn [length]; lia).
+  destruct (find_chan cfg b1 0) as [i|]; [|intros X; inversion X; subst; exact L].
   destruct ((i mod 256 =? 0) || (i mod 256 =? 2)); [destruct (rtp_hdr_check _); try discriminate|];
     intros X; inversion X; subst; exact L.
 Qed.
@@ -536,7 +536,7 @@ Lemma hdr_eqb_refl h : hdr_eqb h h = true.
 Proof. unfold hdr_eqb. apply list_eqb_refl, field_eqb_refl. Qed.
 Lemma event_eqb_refl w ev : event_eqb w ev ev = true.
 Proof.
-  destruct ev as [q|p|c d]; cbn [event_eqb]; rewrite ?bytes_eqb_refl, ?hdr_eqb_refl, ?Z.eqb_refl, ?orb_true_r; reflexivity.
+  destruct ev as [q|p|c d|]; cbn [event_eqb]; rewrite ?bytes_eqb_refl, ?hdr_eqb_refl, ?Z.eqb_refl, ?orb_true_r; reflexivity.
 Qed.
 
 Lemma parse_request_line_url url line :
